@@ -88,13 +88,13 @@ func drawSetup(c *core.Ctx, maxRS, maxRecords int) setup {
 // buffer sizes, continuing after errors up to `retries` times. It returns all
 // bytes ever released, whether clean EOF was reported, and the first error.
 type readResult struct {
-	out        []byte
-	eof        bool
-	eofClean   bool // EOF was reported with no error before it
-	eofAtLen   int
-	firstErr   error
-	errAtLen   int
-	calls      int
+	out          []byte
+	eof          bool
+	eofClean     bool // EOF was reported with no error before it
+	eofAtLen     int
+	firstErr     error
+	errAtLen     int
+	calls        int
 	zeroNonEmpty int // (0,nil) returned for a non-empty buffer
 }
 
